@@ -451,9 +451,15 @@ def ser_route(route):
     return ['na', hs(','.join(sorted(route[1])))]
 
 
+def environ_path(req):
+    """environ['PATH_INFO'] as the catch-all page sees it: decoded, or left raw when undecodable"""
+    p = path_of(req)
+    return p if req['path_ok'] else p.encode('utf8').decode('latin1') + '\xff'
+
+
 def ser_req(req, urlrepr):
     return [str(req['id']), b01(req['method'] == 'HEAD'), b01(req['fw']), b01(req['path_ok']),
-            hs(path_of(req)), hs(urlrepr)] + ser_route(req['route'])
+            hs(environ_path(req)), hs(urlrepr)] + ser_route(req['route'])
 
 
 # --------------------------------------------------------------------------------------
